@@ -248,6 +248,33 @@ fn drain<I: Iterator<Item = u64>>(mut it: I, cap: usize) -> (Vec<u64>, Option<us
     }
 }
 
+/// A range is also a value with state: after k calls of next() (k = 1, n/2, n-1, n, n+2) what is left is itself a range —
+/// its len/size/is_empty describe the remaining items, it yields exactly those, and once exhausted it stays exhausted.
+fn partial<I: Iterator + Clone>(r: &mut Rep, sigbase: &str, case: &str, anchor: &str, it: I, rd: impl Fn(I::Item) -> u64 + Copy, meta: impl Fn(&I) -> (u64, u64, bool), expect: &[u64], size: u64) {
+    let n = expect.len();
+    let mut ks = vec![1usize, n / 2, n.saturating_sub(1), n, n + 2];
+    ks.sort_unstable();
+    ks.dedup();
+    for k in ks {
+        let g = catch(|| {
+            let mut j = it.clone();
+            for _ in 0..k {
+                let _ = j.next();
+            }
+            let m = meta(&j);
+            let rest: Vec<u64> = j.clone().take(n + 2).map(rd).collect();
+            let again = j.clone().next().map(rd);
+            (m, rest, again)
+        });
+        let left = n.saturating_sub(k);
+        let exp_rest: Vec<u64> = expect.iter().copied().skip(k).collect();
+        let exp = ((left as u64, left as u64 * size, left == 0), exp_rest.clone(), exp_rest.first().copied());
+        if g != Ok(exp) {
+            r.viol(&format!("{}|partially-consumed-range-does-not-describe-its-remaining-items|{}", sigbase, anchor), case, &format!("after {} of {} next() calls: {:x?}", k, n, g.map(|(m, rest, _)| (m, rest.len()))));
+        }
+    }
+}
+
 /// Every provided Iterator method a range type could override (nth, skip, step_by, count, last, size_hint, fold, min, max)
 /// must agree with plain next(): same items, no panic.
 fn adapters<I: Iterator + Clone>(r: &mut Rep, sigbase: &str, case: &str, anchor: &str, it: I, rd: impl Fn(I::Item) -> u64 + Copy, expect: &[u64])
@@ -343,6 +370,7 @@ pub fn range_case<S: PageSize>(r: &mut Rep, kind: &str, start: u64, end: u64) {
                 let (i, p) = drain(rg.map(|p| p.start_address().as_u64()), cap);
                 if n <= 80 {
                     adapters(r, &sigbase, &case, anchor, rg, |p| p.start_address().as_u64(), &expect);
+                    partial(r, &sigbase, &case, anchor, rg, |p| p.start_address().as_u64(), |g| (g.len(), g.size(), g.is_empty()), &expect, size);
                 }
                 (i, p, catch(|| rg.len()), catch(|| rg.size()), catch(|| rg.is_empty()))
             }
@@ -354,6 +382,7 @@ pub fn range_case<S: PageSize>(r: &mut Rep, kind: &str, start: u64, end: u64) {
                 let (i, p) = drain(rg.map(|p| p.start_address().as_u64()), cap);
                 if n <= 80 {
                     adapters(r, &sigbase, &case, anchor, rg, |p| p.start_address().as_u64(), &expect);
+                    partial(r, &sigbase, &case, anchor, rg, |p| p.start_address().as_u64(), |g| (g.len(), g.size(), g.is_empty()), &expect, size);
                 }
                 (i, p, catch(|| rg.len()), catch(|| rg.size()), catch(|| rg.is_empty()))
             }
@@ -365,6 +394,7 @@ pub fn range_case<S: PageSize>(r: &mut Rep, kind: &str, start: u64, end: u64) {
                 let (i, p) = drain(rg.map(|p| p.start_address().as_u64()), cap);
                 if n <= 80 {
                     adapters(r, &sigbase, &case, anchor, rg, |p| p.start_address().as_u64(), &expect);
+                    partial(r, &sigbase, &case, anchor, rg, |p| p.start_address().as_u64(), |g| (g.len(), g.size(), g.is_empty()), &expect, size);
                 }
                 (i, p, catch(|| rg.len()), catch(|| rg.size()), catch(|| rg.is_empty()))
             }
@@ -376,6 +406,7 @@ pub fn range_case<S: PageSize>(r: &mut Rep, kind: &str, start: u64, end: u64) {
                 let (i, p) = drain(rg.map(|p| p.start_address().as_u64()), cap);
                 if n <= 80 {
                     adapters(r, &sigbase, &case, anchor, rg, |p| p.start_address().as_u64(), &expect);
+                    partial(r, &sigbase, &case, anchor, rg, |p| p.start_address().as_u64(), |g| (g.len(), g.size(), g.is_empty()), &expect, size);
                 }
                 (i, p, catch(|| rg.len()), catch(|| rg.size()), catch(|| rg.is_empty()))
             }
